@@ -20,11 +20,13 @@ pub struct FaultCounts {
     pub tag: u32,
     pub dup: u32,
     pub exotic: u32,
+    pub nonfinite: u32,
+    pub collide: u32,
 }
 
 impl FaultCounts {
     pub fn total(&self) -> u32 {
-        self.drop + self.null + self.corrupt + self.range + self.arity + self.badkey + self.spurious + self.nearmiss + self.tag + self.dup + self.exotic
+        self.drop + self.null + self.corrupt + self.range + self.arity + self.badkey + self.spurious + self.nearmiss + self.tag + self.dup + self.exotic + self.nonfinite + self.collide
     }
     pub fn add(&mut self, o: &FaultCounts) {
         self.drop += o.drop;
@@ -38,6 +40,8 @@ impl FaultCounts {
         self.tag += o.tag;
         self.dup += o.dup;
         self.exotic += o.exotic;
+        self.nonfinite += o.nonfinite;
+        self.collide += o.collide;
     }
     pub fn as_pairs(&self) -> Vec<(&'static str, u32)> {
         vec![
@@ -52,6 +56,8 @@ impl FaultCounts {
             ("SRC-TAG", self.tag),
             ("SRC-DUP", self.dup),
             ("SRC-EXOTIC", self.exotic),
+            ("SRC-NONFINITE", self.nonfinite),
+            ("SRC-KEYCOLLIDE", self.collide),
         ]
     }
 }
@@ -314,6 +320,10 @@ pub struct FaultCfg {
     pub tag: bool,
     pub dup: bool,
     pub exotic: bool,
+    /// NaN / infinities (a second value source can deliver them; serde_json cannot)
+    pub nonfinite: bool,
+    /// two distinct string keys that parse to the same map key ("7" and "+7")
+    pub collide: bool,
 }
 
 impl FaultCfg {
@@ -330,6 +340,8 @@ impl FaultCfg {
             tag: false,
             dup: false,
             exotic: false,
+            nonfinite: false,
+            collide: false,
         }
     }
     pub fn all(rate_pm: usize) -> FaultCfg {
@@ -345,6 +357,8 @@ impl FaultCfg {
             tag: true,
             dup: false,
             exotic: false,
+            nonfinite: false,
+            collide: false,
         }
     }
 }
@@ -451,6 +465,11 @@ impl<'a> Mutator<'a> {
             self.counts.null += 1;
             return;
         }
+        if self.cfg.nonfinite && self.hit(rng) {
+            *doc = Doc::Float(*rng.pick(&[f64::NAN, f64::INFINITY, f64::NEG_INFINITY]));
+            self.counts.nonfinite += 1;
+            return;
+        }
         if self.cfg.exotic && self.hit(rng) {
             *doc = match rng.below(5) {
                 0 => Doc::Float(f64::NAN),
@@ -463,7 +482,8 @@ impl<'a> Mutator<'a> {
             return;
         }
         match d {
-            Desc::Probe(_) | Desc::Json => {}
+            Desc::Probe(_) => {}
+            Desc::Json => self.free_form(doc, rng),
             Desc::Scalar(s) => {
                 if self.cfg.range && self.hit(rng) {
                     let new = match s {
@@ -525,6 +545,29 @@ impl<'a> Mutator<'a> {
                                 let pos = rng.below(members.len() + 1);
                                 members.insert(pos, (b, random_scalar(rng)));
                                 self.counts.badkey += 1;
+                            }
+                        }
+                    }
+                    if self.cfg.collide && !members.is_empty() && self.hit(rng) {
+                        // another spelling of an existing key, delivered later with its own value
+                        let i = rng.below(members.len());
+                        let alt = match k {
+                            KeyTy::U8 | KeyTy::I32 => {
+                                let key = &members[i].0;
+                                if k.parse(key).is_some() && !key.starts_with('+') && !key.starts_with('-') {
+                                    Some(if rng.chance(1, 2) { format!("+{key}") } else { format!("0{key}") })
+                                } else {
+                                    None
+                                }
+                            }
+                            _ => None,
+                        };
+                        if let Some(a) = alt {
+                            if members.iter().all(|(k2, _)| *k2 != a) {
+                                let v = members[rng.below(members.len())].1.clone();
+                                let pos = rng.below(members.len() + 1);
+                                members.insert(pos, (a, v));
+                                self.counts.collide += 1;
                             }
                         }
                     }
@@ -629,6 +672,38 @@ impl<'a> Mutator<'a> {
                     TypeKind::Wrapper { src, .. } => self.mutate(src, doc, rng),
                 }
             }
+        }
+    }
+
+    /// inside a free-form (`serde_json::Value`) target the only thing that can go wrong is a
+    /// value JSON cannot hold: scatter non-finite floats through the subtree (several in the same
+    /// array / object matter: accumulation and stop answers inside that impl)
+    fn free_form(&mut self, doc: &mut Doc, rng: &mut Rng) {
+        if !self.cfg.nonfinite {
+            return;
+        }
+        match doc {
+            Doc::Seq(items) => {
+                for it in items.iter_mut() {
+                    if rng.below(1000) < self.cfg.rate_pm * 3 {
+                        *it = Doc::Float(*rng.pick(&[f64::NAN, f64::INFINITY, f64::NEG_INFINITY]));
+                        self.counts.nonfinite += 1;
+                    } else {
+                        self.free_form(it, rng);
+                    }
+                }
+            }
+            Doc::Map(members) => {
+                for (_, it) in members.iter_mut() {
+                    if rng.below(1000) < self.cfg.rate_pm * 3 {
+                        *it = Doc::Float(*rng.pick(&[f64::NAN, f64::INFINITY, f64::NEG_INFINITY]));
+                        self.counts.nonfinite += 1;
+                    } else {
+                        self.free_form(it, rng);
+                    }
+                }
+            }
+            _ => {}
         }
     }
 
